@@ -70,7 +70,7 @@ Definition iso_validity_info_names : list string := ["signed"; "validFrom"; "val
 Definition iso_cose_key_labels_to : list Z := [1; 2; -1; -2; -3; 1; 1; -1; -2].
 Definition iso_cose_key_labels_of : list Z := [1; -1; -2; -3].
 (* DeviceEngagement (8.2.1.1): 0 version, 1 security, 2 device retrieval methods, 3 server retrieval methods, 4 protocol info *)
-Definition iso_engagement_labels_to : list Z := [0; 1; 2; 3].
+Definition iso_engagement_labels_to : list Z := [0; 1; 2; 3; 4].
 Definition iso_engagement_labels_of : list Z := [0; 1; 2; 3; 4].
 (* BleOptions (8.2.1.1 table 4): 0 peripheral server mode, 1 central client mode, 10 / 11 the UUIDs, 20 device address *)
 Definition iso_ble_labels_to : list Z := [1; 11; 1; 0; 10; 20; 0].
